@@ -13,7 +13,7 @@ CLAIMED = {
             "DESIGN.md §6 C03"),
     "C07": ("fault_enumeration",
             "deterministic simulation: failure-point enumeration over evaluation histories on one evaluator/module (f-th dynamic fault() invocation fails, natural and ill-typed failures), oracles on error location, call stack, prefix transcripts, probe program and evaluator re-use",
-            "Histories of 2-7 evaluations (eval_module/eval_function) on one Module are replayed with the f-th dynamic fault() invocation failing for enumerated f (all of them when few, a seeded sample otherwise), plus naturally failing and ill-typed programs drawn from an extreme-value catalogue, calls into a frozen library module, and an enumeration mode that calls every global builtin and every method of 19 receiver values with 0-3 arguments from a 42-value extreme catalogue, each call its own evaluation on one evaluator. After every failure: no panic/crash, the error's span and call-stack locations lie inside an involved file on char boundaries, the failing transcript is a prefix of the fault-free one, call_stack_count()==0, an unrelated probe program gives the fresh-evaluator transcript, Module::names/get/freeze/load do not panic, and the rest of the history is identical with a re-used and with a fresh evaluator.",
+            "Histories of 2-7 evaluations (eval_module/eval_function) on one Module are replayed with the f-th dynamic fault() invocation failing for enumerated f (all of them when few, a seeded sample otherwise), plus naturally failing and ill-typed programs drawn from an extreme-value catalogue, calls into a frozen library module, and an enumeration mode that calls every global builtin and every method of 19 receiver values with 0-3 arguments from a 42-value extreme catalogue (all pairs of catalogue values as the two arguments of a callee in dedicated cases), each call its own evaluation on one evaluator, plus load statements that must fail (no loader, unknown module, unknown or private symbol). After every failure: no panic/crash, the error's span and call-stack locations lie inside an involved file on char boundaries, the failing transcript is a prefix of the fault-free one, call_stack_count()==0, an unrelated probe program gives the fresh-evaluator transcript, Module::names/get/freeze/load do not panic, and the rest of the history is identical with a re-used and with a fresh evaluator.",
             "The 'every builtin x every argument tuple' part of C07 is a pure-input dimension: it is covered by the bounded enumeration mode (arity <= 3 over a fixed catalogue), not exhaustively; what the simulation decides is the history/failure-point dimension. Reference for state after failure is the same history with a fresh evaluator per evaluation.",
             "DESIGN.md §6 C07"),
     "C12": ("fault_enumeration",
@@ -54,7 +54,7 @@ CLAIMED = {
     "C18": ("exploration",
             "deterministic simulation of a debugger client in lock-step with the evaluation thread (scripted requests, breakpoint changes, detach and late-request faults) plus all profiler / statement-hook configurations, compared with the uninstrumented transcript",
             "Generated programs with marker statements (module level, defs incl. type-annotated ones, loops left by break / continue, if-elif-else chains, augmented and unpacking assignments, comprehensions re-using a local's name, closures over re-assigned locals, lambdas and native callbacks, locals shadowing module variables, errors raised several frames deep) are run uninstrumented (reference), under each of the 13 ProfileModes followed by gen_profile, freeze and the retained-memory profile, under a counting statement hook (exactly one continued=false call per executed marker statement) and under the DAP adapter driven by a simulated client in lock-step with the evaluation thread: breakpoints on seeded subsets of marker lines incl. conditional / failing conditions and breakpoint-set changes at stops, requests at every stop (top_frame, stack_trace, scopes, variables, inspect_variable, evaluate incl. failing expressions), step Into/Over/Out, detach at a seeded stop, request after the evaluation ended (must return, not hang). Transcript, result and error text must equal the reference; the sequence of stops must equal the executed markers carrying a breakpoint; variables shown at a stop must equal what the marker then emits; under step-Into every executed marker is stopped at exactly once.",
-            "Over/Out are only checked for non-interference. One recorded defect (module-level statements announced twice to hooks/debugger) is modelled and reported as KNOWN-FINDING; any other deviation is a violation.",
+            "Every step (Into / Over / Out, also in sessions mixing steps, continue and breakpoints) is checked against a statement trace recorded by a second statement hook: the stop must be the first statement after the previous stop which the step kind selects (over: call stack not deeper than at the request; out: shallower) or a breakpoint, and a step after which the program runs to its end must have had no candidate. Breakpoints on lines holding several statements (one-line if / for, `a = 1; b = 2`) stop once per execution of the statement the line starts with. One recorded defect (module-level statements announced twice to hooks/debugger) is modelled and reported as KNOWN-FINDING; any other deviation is a violation.",
             "DESIGN.md §6 C18"),
     "C19": ("exploration",
             "deterministic simulation of an LSP client over the in-memory transport plus a simulated file system with I/O faults behind LspContext; ground truth of name resolution obtained by running the generated documents (tagged bindings)",
